@@ -78,11 +78,16 @@ Fixpoint pe_lines (fuel : nat) (ts : list token) : res (list tree * list token *
 Definition parse_entry (ts : list token) : res (list tree * list token * nat) :=
   let '(e0, r0, n0, early) := pe_comments ts in
   if early then Ok (e0, r0, n0) else
+  (* comments may be the last thing in a paragraph: fix 68b9a7d *)
+  match cur r0 with
+  | None | Some NEWLINE => Ok (e0, r0, n0)
+  | _ =>
   let '(e1, r1, n1) := pe_expect KEY r0 in
   let '(e2, r2, n2) := pe_expect COLON r1 in
   match pe_lines (S (length r2)) r2 with
   | Ok (e3, r3, n3) => Ok (e0 ++ [Node ENTRY (e1 ++ e2 ++ e3)], r3, n0 + n1 + n2 + n3)
   | Err x => Err x | Panic x => Panic x | OutOfFuel => OutOfFuel
+  end
   end.
 
 (* while current != NEWLINE && current.is_some() { parse_entry } *)
